@@ -28,6 +28,77 @@ def view(table):
     return out
 
 
+LAZY = ["xray", "neutron", "covalent_radius", "covalent_radius_uncertainty", "covalent_radius_units", "crystal_structure",
+        "magnetic_ff", "K_alpha", "K_beta1", "K_alpha_units", "neutron_activation"]
+
+
+def deep(v, own, depth=0):
+    """address-free view of a served value; atoms are named relative to the table they were read from"""
+    import numpy as np
+    from periodictable import core
+    if v is None or isinstance(v, (bool, int, str)):
+        return v
+    if isinstance(v, float):
+        return repr(v)
+    if isinstance(v, complex):
+        return [repr(v.real), repr(v.imag)]
+    if isinstance(v, (core.Element, core.Isotope, core.Ion)):
+        t = getattr(v, "table", None) or getattr(getattr(v, "element", None), "table", "?")
+        return "atom:%r@%s" % (v, "OWN" if t == own else t)
+    if isinstance(v, np.ndarray):
+        return ["array", list(v.shape), hash(np.ascontiguousarray(v).tobytes())]
+    if isinstance(v, np.generic):
+        return repr(v.item())
+    if depth > 5:
+        return "..."
+    if isinstance(v, (list, tuple)):
+        return [deep(x, own, depth + 1) for x in v]
+    if isinstance(v, dict):
+        return {str(k): deep(x, own, depth + 1) for k, x in sorted(v.items(), key=lambda kv: str(kv[0]))}
+    if hasattr(v, "__dict__"):
+        return {"class": type(v).__name__, **{k: deep(x, own, depth + 1) for k, x in sorted(vars(v).items())}}
+    return repr(type(v))
+
+
+def lazy_view(table, own):
+    """every lazily loaded value of every element, of its first and last isotope and of its first ion"""
+    out = {}
+    for el in table:
+        atoms = [("", el)] + [("[%d]" % a, el[a]) for a in sorted(set(el.isotopes[:1] + el.isotopes[-1:]))]
+        if el.ions:
+            atoms.append((".ion[%d]" % el.ions[0], el.ion[el.ions[0]]))
+        for label, atom in atoms:
+            for name in LAZY:
+                try:
+                    v = getattr(atom, name)
+                    if name == "xray":
+                        v = dict(obj=deep(v, own), sftable=deep(v.sftable, own))
+                    d = deep(v, own)
+                except Exception as e:  # noqa
+                    d = "raises " + type(e).__name__
+                out["%s%s.%s" % (el.symbol, label, name)] = json.dumps(d, sort_keys=True)
+    return out
+
+
+def lazy_breadth(fail):
+    """a private table with every property group initialised serves, atom by atom, what the public table serves"""
+    import periodictable as pt
+    from periodictable import core, mass, density, nsf, xsf, covalent_radius, crystal_structure, magnetic_ff, activation
+    t = core.PeriodicTable("qall")
+    text = ["qall = PeriodicTable('qall')"]
+    for mod, fn in ((mass, "init"), (density, "init"), (nsf, "init"), (xsf, "init"), (xsf, "init_spectral_lines"), (covalent_radius, "init"),
+                    (crystal_structure, "init"), (magnetic_ff, "init"), (activation, "init")):
+        getattr(mod, fn)(t)
+        text.append("%s.%s(qall)" % (mod.__name__.split(".")[-1], fn))
+    pv, qv = lazy_view(pt.elements, "public"), lazy_view(t, "qall")
+    bad = [k for k in pv if pv[k] != qv.get(k)]
+    for k in bad[:40]:
+        group = k.rsplit(".", 1)[1]
+        fail("C10:fresh-private-differs:atoms:%s" % group, "after [%s], qall.%s serves %s; elements.%s serves %s  (%d such values)"
+             % ("; ".join(text), k, qv.get(k, "nothing")[:160], k, pv[k][:160], len(bad)), history_text=list(text), key=k)
+    return len(pv)
+
+
 def main():
     repo = os.environ.get("VERIF_REPO", "/repo")
     fails = []
@@ -71,7 +142,14 @@ def main():
         want_ions = sorted(base[z][2] + base[z][3])
         if rec["ions"] != want_ions:
             fail("C10:public-core.ions", "elements.%s.ions is %r; element_base in core.py lists %r" % (rec["symbol"], rec["ions"], want_ions), Z=z)
-    json.dump(dict(direct_fails=fails, stats=dict(tables=len(tables), elements=len(pub0))), sys.stdout)
+    try:
+        nlazy = lazy_breadth(fail)
+    except Exception as e:  # noqa
+        import traceback
+        nlazy = 0
+        fail("C10:fresh-private-differs:raises", "initialising every property group on a fresh private table and reading it raised %s: %s"
+             % (type(e).__name__, e), trace=traceback.format_exc()[-600:])
+    json.dump(dict(direct_fails=fails, stats=dict(tables=len(tables), elements=len(pub0), lazy_values_compared=nlazy)), sys.stdout)
 
 
 main()
